@@ -11,7 +11,7 @@ if [ "$1" = "-e" ]; then
   sed -i "$2" "$WT/$3"; shift 3
   (cd "$WT" && git diff --stat | tail -1)
 else
-  git -C "$WT" apply "$1" || { echo "apply failed"; exit 3; }; shift
+  git -C "$WT" apply "$(realpath "$1")" || { echo "apply failed"; exit 3; }; shift
 fi
 [ "$1" = "--" ] && shift
 VERIF_REPO="$WT" "$@"
